@@ -13,6 +13,13 @@ pub fn seed() -> u64 {
     std::env::var("VERIF_SEED").ok().and_then(|s| s.trim().parse::<u64>().ok()).unwrap_or(1)
 }
 
+/// thorough runs over several generated program sets: (this round, number of rounds)
+pub fn round() -> (u64, u64) {
+    let r = std::env::var("DV_ROUND").ok().and_then(|s| s.parse().ok()).unwrap_or(0);
+    let n = std::env::var("DV_ROUNDS").ok().and_then(|s| s.parse().ok()).unwrap_or(1u64).max(1);
+    (r, n)
+}
+
 #[derive(Clone, Copy, Debug, PartialEq, Eq)]
 pub enum Tier {
     Quick,
@@ -149,7 +156,60 @@ impl Report {
             println!("  details: {}", serde_json::to_string(details).unwrap_or_default());
             vio_paths.push(path.display().to_string());
         }
-        let wall = self.started.elapsed().as_secs_f64();
+        let mut wall = self.started.elapsed().as_secs_f64();
+        // several rounds (program sets) of one thorough run accumulate into one evidence file
+        let (round, rounds) = round();
+        let nt_path = dir.join("work").join(format!("nontrivial.{}.json", self.prop));
+        let ev_path = dir.join("evidence").join(format!("{}.json", self.prop));
+        let mut prev_violations = 0i64;
+        let mut program_seeds: Vec<J> = vec![];
+        if round > 0 {
+            if let Ok(prev) = std::fs::read_to_string(&ev_path).map_err(|_| ()).and_then(|s| serde_json::from_str::<J>(&s).map_err(|_| ())) {
+                let c = &prev["coverage"];
+                self.stats.evaluations += c["evaluations"].as_u64().unwrap_or(0);
+                self.stats.executions = self.stats.executions.max(self.stats.evaluations.min(self.stats.executions)) + c["executions_of_code_under_test"].as_u64().unwrap_or(0);
+                if let Some(m) = c["classes"].as_object() {
+                    for (k, v) in m {
+                        *self.stats.classes.entry(k.clone()).or_insert(0) += v.as_u64().unwrap_or(0);
+                    }
+                }
+                if let Some(m) = c["excluded_known"].as_object() {
+                    for (k, v) in m {
+                        *self.stats.excluded_known.entry(k.clone()).or_insert(0) += v.as_u64().unwrap_or(0);
+                    }
+                }
+                if let Some(a) = c["samples"].as_array() {
+                    let mut all = a.clone();
+                    all.extend(self.stats.samples.drain(..));
+                    all.truncate(30);
+                    self.stats.samples = all;
+                }
+                if let Some(a) = c["program_seeds"].as_array() {
+                    program_seeds = a.clone();
+                }
+                wall += prev["wall_s"].as_f64().unwrap_or(0.0);
+                prev_violations = prev["violations"].as_i64().unwrap_or(0);
+            }
+            if let Ok(s) = std::fs::read_to_string(&nt_path) {
+                if let Ok(v) = serde_json::from_str::<Vec<u64>>(&s) {
+                    self.stats.nontrivial.extend(v);
+                }
+            }
+        }
+        if let Some(ps) = self.extra.get("program_seed") {
+            program_seeds.push(ps.clone());
+        }
+        if rounds > 1 {
+            self.extra.insert("program_seeds".into(), J::Array(program_seeds));
+            self.extra.insert("program_sets".into(), json!(round + 1));
+            if round + 1 < rounds {
+                let _ = std::fs::create_dir_all(dir.join("work"));
+                let v: Vec<u64> = self.stats.nontrivial.iter().copied().collect();
+                let _ = std::fs::write(&nt_path, serde_json::to_string(&v).unwrap_or_default());
+            } else {
+                let _ = std::fs::remove_file(&nt_path);
+            }
+        }
         let mut coverage = json!({
             "evaluations": self.stats.evaluations,
             "executions_of_code_under_test": self.stats.executions.max(self.stats.evaluations),
@@ -171,7 +231,7 @@ impl Report {
             "coverage": coverage,
             "assumptions": self.assumptions,
             "wall_s": wall,
-            "violations": violations.len(),
+            "violations": violations.len() as i64 + prev_violations,
             "violation_replays": vio_paths,
         });
         let path = dir.join("evidence").join(format!("{}.json", self.prop));
